@@ -104,8 +104,18 @@ func mpEncode(v interface{}) ([]byte, error) {
 	return buf.Bytes(), err
 }
 
+// mpDecode decodes from a private copy of b and then overwrites that copy:
+// the buffer a value is decoded from belongs to the transport (the Raft log
+// decoder reuses a scratch buffer), so a decoded value that still points
+// into it changes under its owner's feet. BinaryUnmarshaler implementations
+// must copy what they keep.
 func mpDecode(b []byte, v interface{}) error {
-	return codec.NewDecoderBytes(b, &codec.MsgpackHandle{}).Decode(v)
+	in := append([]byte(nil), b...)
+	err := codec.NewDecoderBytes(in, &codec.MsgpackHandle{}).Decode(v)
+	for i := range in {
+		in[i] = 0xA5
+	}
+	return err
 }
 
 const rulePin = "well-formed pins of every type (gen.Pin: both CID versions, all codecs, factors, names, metadata incl. empty key, expiry zero/unix0/whole-second/nanoseconds, allocations, user allocations, origins, reference, update source); non-trivial = at least 2 optional fields set; distinct by canonical rendering"
